@@ -125,7 +125,11 @@ func prune(fetchPruneConfig lfs.FetchPruneConfig, verifyRemote, verifyUnreachabl
 	go pruneTaskGetRetainedStashed(gitscanner, retainChan, errorChan, &taskwait, sem)
 	if verifyRemote && !verifyUnreachable {
 		reachableObjects = tools.NewStringSetWithCapacity(100)
-		go pruneTaskGetReachableObjects(gitscanner, &reachableObjects, errorChan, &taskwait, sem)
+		// Whether an object is reachable does not depend on
+		// lfs.fetchexclude, so do not use the filtered scanner here:
+		// an object with a path matching that setting would otherwise
+		// be taken for unreachable and deleted without verification.
+		go pruneTaskGetReachableObjects(lfs.NewGitScanner(cfg, nil), &reachableObjects, errorChan, &taskwait, sem)
 	}
 
 	// Now collect all the retained objects, on separate wait
